@@ -340,6 +340,15 @@ HttpEqualsPipe ==
     [][ (Stepped /\ Last.a \in {"Init", "Continue"} /\ "pipe_eq" \in DOMAIN E) =>
             E.view = IF IsProd(cur'.m) THEN ProdRef(cur') ELSE PipeView(cur') ]_vars
 
+\* The same, outside the class the code is KNOWN to get wrong and the model reproduces (a dynamic
+\* exchange stream fed a castable-but-unequal input: known finding C11 "dynx-cast", DESIGN 14).
+\* MC_full.cfg checks this one; MC_full_asis.cfg checks HttpEqualsPipe itself and is expected to be
+\* violated by exactly that class (it is not registered in module.json).
+HttpEqualsPipeKnown ==
+    [][ (Stepped /\ Last.a \in {"Init", "Continue"} /\ "pipe_eq" \in DOMAIN E
+         /\ ~("cls" \in DOMAIN Last /\ Last.cls = "dynx-cast")) =>
+            E.view = IF IsProd(cur'.m) THEN ProdRef(cur') ELSE PipeView(cur') ]_vars
+
 \* C16: an accepted exchange continuation returns exactly one data batch and a fresh cursor; a
 \* failed turn an error and no cursor; a cancel an empty stream, no cursor, OnCancel once
 OneTurnPerContinuation ==
